@@ -70,7 +70,7 @@ package table
 //@   ensures [C16.put.empty] len(req.Key) == 0 ==> err == serrors.ErrEmptyKey && t.nh.nprop == old(t.nh.nprop)
 //@   ensures [C16.put.klen]  len(req.Key) > 1024 ==> err == serrors.ErrKeyLengthExceeded && t.nh.nprop == old(t.nh.nprop)
 //@   ensures [C16.put.vlen]  len(req.Key) > 0 && len(req.Key) <= 1024 && len(req.Value) > 2097152 ==> err == serrors.ErrValueLengthExceeded && t.nh.nprop == old(t.nh.nprop)
-//@   ensures [C16.put.once]  t.nh.nprop <= old(t.nh.nprop) + 1
+//@   ensures [C16.put.once+C10]  t.nh.nprop <= old(t.nh.nprop) + 1
 //@   ensures [C10.put.rev]   err == nil ==> resp != nil && resp.Header != nil && resp.Header.Revision == world.lastRev      // the acknowledged revision is the one the state machine assigned to this very proposal
 //@   ensures err == nil ==> fresh(resp) && fresh(resp.Header)
 //@   modifies t.nh.nprop, world.lastRev
@@ -82,7 +82,7 @@ package table
 //@   ensures [C16.del.empty] len(req.Key) == 0 ==> err == serrors.ErrEmptyKey && t.nh.nprop == old(t.nh.nprop)
 //@   ensures [C16.del.klen]  len(req.Key) > 1024 ==> err == serrors.ErrKeyLengthExceeded && t.nh.nprop == old(t.nh.nprop)
 //@   ensures [C16.del.rlen]  len(req.Key) > 0 && len(req.Key) <= 1024 && len(req.RangeEnd) > 1024 ==> err == serrors.ErrKeyLengthExceeded && t.nh.nprop == old(t.nh.nprop)      // the end of a range is a key: same limit as for Range
-//@   ensures [C16.del.once]  t.nh.nprop <= old(t.nh.nprop) + 1
+//@   ensures [C16.del.once+C10]  t.nh.nprop <= old(t.nh.nprop) + 1
 //@   ensures [C10.del.rev]   err == nil ==> resp != nil && resp.Header != nil && resp.Header.Revision == world.lastRev
 //@   ensures err == nil ==> fresh(resp) && fresh(resp.Header)
 //@   modifies t.nh.nprop, world.lastRev
@@ -94,7 +94,7 @@ package table
 //@   maypanic
 //@   requires t != nil && t.nh != nil && req != nil && (forall j int :: 0 <= j && j < len(req.Success) ==> req.Success[j] != nil && opNonNilPayload(req.Success[j])) && (forall j int :: 0 <= j && j < len(req.Failure) ==> req.Failure[j] != nil && opNonNilPayload(req.Failure[j]))
 //@   ensures [C10.txn.ro]    old(roAllRange(req)) ==> t.nh.nprop == old(t.nh.nprop) && t.nh.nstale == old(t.nh.nstale)
-//@   ensures [C16.txn.once]  t.nh.nprop <= old(t.nh.nprop) + 1
+//@   ensures [C16.txn.once+C10]  t.nh.nprop <= old(t.nh.nprop) + 1
 //@   ensures [C16.txn.limits] !(okOps(req.Success) && okOps(req.Failure)) ==> err != nil && t.nh.nprop == old(t.nh.nprop)
 //@   ensures [C10.txn.rev]   err == nil && t.nh.nprop == old(t.nh.nprop) + 1 ==> resp != nil && resp.Header != nil && resp.Header.Revision == world.lastRev
 //@   ensures err == nil && t.nh.nprop == old(t.nh.nprop) + 1 ==> fresh(resp) && fresh(resp.Header)
@@ -128,6 +128,7 @@ package table
 //   wVal[k]/wVer[k]/wDel[k]   the last successful write of k
 //   wPrevHas[k]/wPrev[k]      the record that write replaced (absent, or a record whose version is wVer[k])
 //@ ghostfield any.rHas map[string]Bool
+//@ ghostfield any.rMiss map[string]Bool
 //@ ghostfield any.rPair map[string]kv.Pair
 //@ ghostfield any.nwk map[string]Int
 //@ ghostfield any.wVal map[string]string
@@ -144,12 +145,13 @@ package table
 //@   params s, key
 //@   results p, err
 //@   ensures s.rHas[key] == (err == nil)
+//@   ensures s.rMiss[key] == (err != nil && errIs(err, kv.ErrNotExist)) && forall k string :: k != key ==> s.rMiss[k] == old(s.rMiss[k])      // ghost: the read found the key ABSENT (as opposed to failing)
 // catalogue well-formedness (ASSUMED of the store's content): the record under a table's key carries that table's name
 //@   ensures err == nil && key == "/tables/" + recName(key) && noSlash(recName(key)) ==> tableOf(bytesOf(p.Value)).Name == recName(key)
 //@   ensures err == nil ==> s.rPair[key] == p && p.Ver > 0 && p.Key == key
 //@   ensures err != nil ==> p == kv.Pair{}
 //@   ensures forall k string :: k != key ==> s.rHas[k] == old(s.rHas[k]) && s.rPair[k] == old(s.rPair[k])
-//@   modifies s.rHas, s.rPair
+//@   modifies s.rHas, s.rMiss, s.rPair
 
 //@ iface table.store.Exists
 //@   assumed
@@ -227,7 +229,7 @@ package table
 //@   ensures [C15.own] err == nil ==> leaseOf(bytesOf(m.store.wVal[leaseKey(name)])).ID == m.cfg.NodeID && tns(leaseOf(bytesOf(m.store.wVal[leaseKey(name)])).Until) == world.clock + lease
 //@   ensures [C15.decide] err == nil ==> !m.store.rHas[leaseKey(name)] || leaseIn(m.store.rPair[leaseKey(name)]).ID == m.cfg.NodeID || tns(leaseIn(m.store.rPair[leaseKey(name)]).Until) < world.clock
 //@   ensures [C15.clock] world.clock >= old(world.clock)
-//@   modifies m.store.rHas, m.store.rPair, m.store.nwk, m.store.wVal, m.store.wVer, m.store.wDel, m.store.wPrevHas, m.store.wPrev, world.clock
+//@   modifies m.store.rHas, m.store.rMiss, m.store.rPair, m.store.nwk, m.store.wVal, m.store.wVer, m.store.wDel, m.store.wPrevHas, m.store.wPrev, world.clock
 
 // ReturnTable deletes only with the version of a record it read and found to be its own.
 //@ func (*Manager).ReturnTable
@@ -238,7 +240,7 @@ package table
 //@   ensures [C15.return.nowrite] !returned ==> m.store.nwk[leaseKey(name)] == old(m.store.nwk[leaseKey(name)])
 //@   ensures [C15.return.cas] returned ==> err == nil && m.store.nwk[leaseKey(name)] == old(m.store.nwk[leaseKey(name)]) + 1 && m.store.wDel[leaseKey(name)] && m.store.rHas[leaseKey(name)] && m.store.wVer[leaseKey(name)] == m.store.rPair[leaseKey(name)].Ver
 //@   ensures [C15.return.own+C05] returned ==> leaseIn(m.store.rPair[leaseKey(name)]).ID == m.cfg.NodeID
-//@   modifies m.store.rHas, m.store.rPair, m.store.nwk, m.store.wVal, m.store.wVer, m.store.wDel, m.store.wPrevHas, m.store.wPrev
+//@   modifies m.store.rHas, m.store.rMiss, m.store.rPair, m.store.nwk, m.store.wVal, m.store.wVer, m.store.wDel, m.store.wPrevHas, m.store.wPrev
 
 // From the per-call contracts to mutual exclusion. Versions identify records (a successful set gives
 // the key a version larger than every earlier one: C13.version.fresh), so a compare-and-set that
@@ -339,7 +341,7 @@ package table
 //@   ensures [C14.seq.fail] err != nil ==> m.store.nwk[seqKey] == old(m.store.nwk[seqKey])
 //@   ensures [C14.seq.cas] err == nil ==> m.store.nwk[seqKey] == old(m.store.nwk[seqKey]) + 1 && !m.store.wDel[seqKey] && m.store.wVer[seqKey] == (m.store.rHas[seqKey] ? m.store.rPair[seqKey].Ver : 0) && parseU(m.store.wVal[seqKey]) == next
 //@   ensures [C14.seq.next] err == nil && (m.store.rHas[seqKey] ? parseU(m.store.rPair[seqKey].Value) : 10000) < 18446744073709551615 ==> next == (m.store.rHas[seqKey] ? parseU(m.store.rPair[seqKey].Value) : 10000) + 1
-//@   modifies m.store.rHas, m.store.rPair, m.store.nwk, m.store.wVal, m.store.wVer, m.store.wDel, m.store.wPrevHas, m.store.wPrev
+//@   modifies m.store.rHas, m.store.rMiss, m.store.rPair, m.store.nwk, m.store.wVal, m.store.wVer, m.store.wDel, m.store.wPrevHas, m.store.wPrev
 
 // the id handed out is larger than the sequence value it replaced: with "versions identify
 // records" the value replaced is the value read, and the sequence only ever grows - so every id
@@ -370,9 +372,10 @@ package table
 //@   requires m != nil && m.store != nil
 //@   ensures [C14.get] err == nil ==> m.store.rHas[tkey(name)] && ver == m.store.rPair[tkey(name)].Ver && tab == tableOf(bytesOf(m.store.rPair[tkey(name)].Value))
 //@   ensures [C14.get.notfound] !m.store.rHas[tkey(name)] ==> err != nil
+//@   ensures [C16.get.notfound+C14] m.store.rMiss[tkey(name)] ==> err == serrors.ErrTableNotFound      // an absent record is reported as "table not found" - by identity: the API layer maps it with errors.Is
 //@   ensures [C14.get.name] err == nil && noSlash(name) ==> tab.Name == name
 //@   ensures forall k string :: k != tkey(name) ==> m.store.rHas[k] == old(m.store.rHas[k]) && m.store.rPair[k] == old(m.store.rPair[k])
-//@   modifies m.store.rHas, m.store.rPair
+//@   modifies m.store.rHas, m.store.rMiss, m.store.rPair
 
 // createTable: writes only the sequence record and the record of `name`; success is exactly one
 // successful compare-and-set of each: the record is written with version 0 - which succeeds only if
@@ -386,7 +389,7 @@ package table
 //@   results t, err
 //@   requires m != nil && m.store != nil && m.nh != nil
 //@   before (*Manager).startTable assert [C14.create.start] name == created.Name && id == created.ClusterID
-//@   modifies m.store.rHas, m.store.rPair, m.store.nwk, m.store.wVal, m.store.wVer, m.store.wDel, m.store.wPrevHas, m.store.wPrev
+//@   modifies m.store.rHas, m.store.rMiss, m.store.rPair, m.store.nwk, m.store.wVal, m.store.wVer, m.store.wDel, m.store.wPrevHas, m.store.wPrev
 //@ func (*Manager).createTable
 //@   params m, name
 //@   results tab, err
@@ -397,7 +400,7 @@ package table
 //@   ensures [C14.create.cas] err == nil ==> m.store.nwk[tkey(name)] == old(m.store.nwk[tkey(name)]) + 1 && !m.store.wDel[tkey(name)] && m.store.wVer[tkey(name)] == 0 && tableOf(bytesOf(m.store.wVal[tkey(name)])) == Table{Name: name, ClusterID: tab.ClusterID} && tab.Name == name && tab.RecoverID == 0
 //@   ensures [C14.create.id] err == nil ==> m.store.nwk[seqKey] == old(m.store.nwk[seqKey]) + 1 && tab.ClusterID == parseU(m.store.wVal[seqKey]) && m.store.wVer[seqKey] == (m.store.rHas[seqKey] ? m.store.rPair[seqKey].Ver : 0)
 //@   ensures [C14.create.fail] err != nil ==> m.store.nwk[tkey(name)] == old(m.store.nwk[tkey(name)]) || tkey(name) == seqKey
-//@   modifies m.store.rHas, m.store.rPair, m.store.nwk, m.store.wVal, m.store.wVer, m.store.wDel, m.store.wPrevHas, m.store.wPrev
+//@   modifies m.store.rHas, m.store.rMiss, m.store.rPair, m.store.nwk, m.store.wVal, m.store.wVer, m.store.wDel, m.store.wPrevHas, m.store.wPrev
 
 // a compare-and-set with version 0 succeeds only against an absent record
 //@ lemma createUnique(wPrevHas Bool, wPrev kv.Pair, wVer uint64)
@@ -415,7 +418,7 @@ package table
 //@   ensures [C14.keyspace.delete] err == nil ==> noSlash(name)
 //@   ensures [C14.delete.cas] err == nil ==> m.store.rHas[tkey(name)] && m.store.nwk[tkey(name)] == old(m.store.nwk[tkey(name)]) + 1 && m.store.wDel[tkey(name)] && m.store.wVer[tkey(name)] == m.store.rPair[tkey(name)].Ver
 //@   ensures [C14.delete.fail] err != nil ==> m.store.nwk[tkey(name)] == old(m.store.nwk[tkey(name)])
-//@   modifies m.store.rHas, m.store.rPair, m.store.nwk, m.store.wVal, m.store.wVer, m.store.wDel, m.store.wPrevHas, m.store.wPrev
+//@   modifies m.store.rHas, m.store.rMiss, m.store.rPair, m.store.nwk, m.store.wVal, m.store.wVer, m.store.wDel, m.store.wPrevHas, m.store.wPrev
 
 // ---------------------------------------------------------------- reconciliation (C14)
 
@@ -491,9 +494,10 @@ package table
 //@   params m, name
 //@   results at, err
 //@   requires m != nil && m.store != nil && m.nh != nil
+//@   ensures [C16.gettable.notfound+C14] m.store.rMiss[tkey(name)] ==> err == serrors.ErrTableNotFound
 //@   ensures [C14.gettable] err == nil ==> m.store.rHas[tkey(name)] && at.Table == tableOf(bytesOf(m.store.rPair[tkey(name)].Value)) && typeIs(at.nh, *dragonboat.NodeHost) && asType(at.nh, *dragonboat.NodeHost) == m.nh
 //@   ensures forall k string :: k != tkey(name) ==> m.store.rHas[k] == old(m.store.rHas[k]) && m.store.rPair[k] == old(m.store.rPair[k])
-//@   modifies m.store.rHas, m.store.rPair
+//@   modifies m.store.rHas, m.store.rMiss, m.store.rPair
 //@ func (*Manager).GetTableByID
 //@   params m, id
 //@   results at, err
@@ -574,7 +578,7 @@ package table
 //@   requires m != nil && m.nh != nil && m.store != nil
 //@   before dragonboat.(*NodeHost).StaleRead assert [C14.stop.path] shardID == clusterID && typeIs(query, fsm.PathRequest)
 //@   before dragonboat.(*NodeHost).StopShard assert [C14.stop.shard] shardID == clusterID
-//@   modifies m.store.rHas, m.store.rPair, m.store.nwk, m.store.wVal, m.store.wVer, m.store.wDel, m.store.wPrevHas, m.store.wPrev, world.clock
+//@   modifies m.store.rHas, m.store.rMiss, m.store.rPair, m.store.nwk, m.store.wVal, m.store.wVer, m.store.wDel, m.store.wPrevHas, m.store.wPrev, world.clock
 
 //@ import dragonboat "github.com/lni/dragonboat/v4"
 //@ func dragonboat.(*NodeHost).GetNodeHostInfo
@@ -596,7 +600,7 @@ package table
 //@ func (*Manager).reconcileLoop
 //@   maypanic
 //@   requires m != nil && m.log != nil && m.store != nil && m.nh != nil && allocated(m.closed)
-//@   modifies m.lastTables, m.store.rHas, m.store.rPair, m.store.nwk, m.store.wVal, m.store.wVer, m.store.wDel, m.store.wPrevHas, m.store.wPrev, world.clock
+//@   modifies m.lastTables, m.store.rHas, m.store.rMiss, m.store.rPair, m.store.nwk, m.store.wVal, m.store.wVer, m.store.wDel, m.store.wPrevHas, m.store.wPrev, world.clock
 //@   loop 0 invariant m.log != nil && m.store != nil && m.nh != nil && t != nil && t.C != m.closed && m.closed == old(m.closed)
 //@   loop 0 leave [C14.reconcile.alive] world.lastSel == m.closed
 
@@ -606,7 +610,7 @@ package table
 //@   requires m != nil && m.store != nil && m.nh != nil
 //@   before (*Manager).startTable assert [C14.reconcile.start] has(start, id) && start[id].Name == name
 //@   before (*Manager).stopTable assert [C14.reconcile.stop] exists j int :: 0 <= j && j < len(stop) && stop[j] == clusterID
-//@   modifies m.lastTables, m.store.rHas, m.store.rPair, m.store.nwk, m.store.wVal, m.store.wVer, m.store.wDel, m.store.wPrevHas, m.store.wPrev, world.clock
+//@   modifies m.lastTables, m.store.rHas, m.store.rMiss, m.store.rPair, m.store.nwk, m.store.wVal, m.store.wVer, m.store.wDel, m.store.wPrevHas, m.store.wPrev, world.clock
 //@   loop 0 invariant m != nil
 //@   loop 1 invariant -1 <= rangeindex && rangeindex < len(stop) && m != nil
 
@@ -717,7 +721,7 @@ package table
 //@   before (*Manager).readIntoTable assert [C07.switch.fresh] id == recoveryID && recoveryID == parseU(m.store.wVal[seqKey]) && m.store.nwk[seqKey] == old(m.store.nwk[seqKey]) + 1
 //@   ensures [C07.switch.cas+C14] err == nil ==> noSlash(name) && !m.store.wDel[tkey(name)] && m.store.wVer[tkey(name)] == m.store.rPair[tkey(name)].Ver && m.store.rHas[tkey(name)] && tableOf(bytesOf(m.store.wVal[tkey(name)])).ClusterID == parseU(m.store.wVal[seqKey]) && tableOf(bytesOf(m.store.wVal[tkey(name)])).RecoverID == 0 && tableOf(bytesOf(m.store.wVal[tkey(name)])).Name == tableOf(bytesOf(m.store.rPair[tkey(name)].Value)).Name
 //@   ensures [C07.switch.all] err == nil ==> m.nh.nelem - old(m.nh.nelem) == reader.nrec - old(reader.nrec)
-//@   modifies m.store.rHas, m.store.rPair, m.store.nwk, m.store.wVal, m.store.wVer, m.store.wDel, m.store.wPrevHas, m.store.wPrev, reader.nrec, reader.rtotal, m.nh.lastRes, m.nh.lastErr, m.nh.lastCmd, m.nh.nelem, m.nh.nseq, m.nh.leaderOf
+//@   modifies m.store.rHas, m.store.rMiss, m.store.rPair, m.store.nwk, m.store.wVal, m.store.wVer, m.store.wDel, m.store.wPrevHas, m.store.wPrev, reader.nrec, reader.rtotal, m.nh.lastRes, m.nh.lastErr, m.nh.lastCmd, m.nh.nelem, m.nh.nseq, m.nh.leaderOf
 
 // ---------------------------------------------------------------- read path selection (C10)
 
